@@ -12,7 +12,7 @@ KINDS = {
     "formatted": b"a;\n",
     "undecodable": b"a ;\xff\n",
     "missing": None,
-    "undecodable-after-non-ascii": "x := '".encode() + "é".encode() * 13 + b"' ; //\xff\n",
+    "undecodable-after-non-ascii": "x := '".encode() + "é".encode() * 13 + b"' ;//\xff\n",
     "utf16-bom": "﻿a  ;\n".encode("utf-16-le"),
 }
 NAMES = ["unit.pas", "Unit.pas", "UNIT.pas", "sub/unit.pas"]
